@@ -306,7 +306,8 @@ def catalogue(rng, quick):
                                              "exact": True, "doc": d}, p_history=0.05))
         for tag, d in nb.near_misses(rng, doc):
             # an abutting / detached extra rectangle on a hard module is a well-formed design
-            exp = "accept" if tag in ("overlap-touching", "overlap-gap") else ""
+            # (provided the extra rectangle does not run into a third one)
+            exp = "accept" if tag in ("overlap-touching", "overlap-gap") and nb.hard_overlap_free(nc.seen(d)) else ""
             cases.append(with_form(rng, {"stream": "near-miss", "tag": tag, "expect": exp, "exact": True, "doc": d},
                                    p_history=0.05))
     for cfg in (nb.SIZES_QUICK if quick else nb.SIZES_THOROUGH):
@@ -328,7 +329,7 @@ def dist_key(c):
 
 
 def run(ctx, out, replay=None):
-    n = 1200 if ctx.quick() else 10000
+    n = 1200 if ctx.quick() else 8000
     out.rule = ("(a) catalogue: on documents holding every kind of module, every boundary instance of every listed defect "
                 "class (harness/props/netlist_boundary.py: zeros of every spelling, False, the smallest negative floats, an "
                 "area equal to the rectangles' on a hard module - number, ground mapping, split over regions, one ulp-ish "
